@@ -209,7 +209,7 @@ fn export_both(log: &mahf::logging::Log) -> (Value, Value) {
     (j, c)
 }
 
-fn cbor_to_json(v: &ciborium::value::Value) -> Value {
+pub fn cbor_to_json(v: &ciborium::value::Value) -> Value {
     use ciborium::value::Value as C;
     match v {
         C::Integer(i) => json!(i128::from(*i) as i64),
@@ -235,7 +235,7 @@ fn cbor_to_json(v: &ciborium::value::Value) -> Value {
 }
 
 /// {names: [..], entries: [{key: value}]} -> list of steps, each a sorted list of (name, value)
-fn expand(v: &Value) -> Value {
+pub fn expand(v: &Value) -> Value {
     let names: Vec<String> = v["names"].as_array().map(|a| a.iter().map(|x| x.as_str().unwrap_or("?").to_string()).collect()).unwrap_or_default();
     let mut steps = vec![];
     for e in v["entries"].as_array().cloned().unwrap_or_default() {
